@@ -5,6 +5,7 @@ import (
 	"context"
 	"errors"
 	"io"
+	stdlog "log"
 	"net"
 	"net/http"
 	"net/http/httptest"
@@ -305,9 +306,9 @@ func c14Run(c *Case) []any {
 	case "noop":
 		authFn = openapi3filter.NoopAuthenticationFunc
 	}
-	opts := []openapi3filter.ValidatorOption{
-		openapi3filter.Strict(tc.Cfg.Strict),
-		openapi3filter.OnLog(func(ctx context.Context, msg string, _ error) {
+	opts := []openapi3filter.ValidatorOption{openapi3filter.Strict(tc.Cfg.Strict)}
+	if tc.Cfg.ErrMode == "custom" {
+		opts = append(opts, openapi3filter.OnLog(func(ctx context.Context, msg string, _ error) {
 			if primer(ctx) {
 				return
 			}
@@ -323,7 +324,10 @@ func c14Run(c *Case) []any {
 				cls = "writefail"
 			}
 			log = append(log, map[string]any{"ev": "Log", "msg": cls})
-		}),
+		}))
+	} else {
+		// errMode "default": neither OnErr nor OnLog -- the Validator's own errFunc (http.Error) and logFunc (log.Printf)
+		stdlog.SetOutput(io.Discard)
 	}
 	if tc.Cfg.Auth != "noopts" {
 		opts = append(opts, openapi3filter.ValidationOptions(openapi3filter.Options{
